@@ -19,7 +19,10 @@ MALFORMED = {
     "all_zero": [b"*0000000000000000000000000000;\n", b"*00000000000000;\n"],
     "undecodable_df": [b"*10FFFFFFFFFFFF;\n", b"*B8AAAAAAAAAAAAAAAAAAAAAAAAAA;\n"],
     "truncated_frame": [b"*8D4840D6;\n", b"*8D4840D6202CC371C32CE0;\n"],
-    "long_line": [b"*" + b"10" * 2048 + b";\n", b"*" + b"ZY" * 2048 + b";\n", b"*" + b"8" * 4097 + b";\n", b"Z" * 70000 + b"\n", b"*" + b"8D" * 100000 + b";\n", b"\x00" * 9000 + b"\n"],
+    "long_line": [b"*" + b"10" * 2048 + b";\n", b"*" + b"ZY" * 2048 + b";\n", b"*" + b"8" * 4097 + b";\n", b"Z" * 70000 + b"\n", b"*" + b"8D" * 100000 + b";\n", b"\x00" * 9000 + b"\n"]
+        # lengths (line feed included) at and around the sizes a reader works with: 1 KiB per
+        # turn of radar's loop, the 8 KiB of a BufReader, the 64 KiB bound on a line
+        + [b"g" * (n - 1) + b"\n" for n in (1023, 1024, 1025, 2048, 3072, 8191, 8192, 8193, 16384, 65535, 65536, 65537, 65538)],
     "crlf": [b"*8DABCDEF0000000000000000000000;\r\n"],
     "no_star": [b"8D4840D6202CC371C32CE0576098;\n"],
     "misplaced_markers": [b";*\n", b"abc;def*gh\n", b"*8D4840D6202CC371C32CE0576098;*8D40\n", b"**;;\n", b";\r\n", b"*;*;\n", b"* ;\n"],
@@ -398,6 +401,7 @@ def check_radar(col, binpath, rng, tag, seg_kind, delay_kind, malformed, disconn
         opts.append("--limit-parsing")
     plan = steps + [("mark", "feed_done")]
     lines2, expect2, last_words = [], {}, []
+    partial_desc = None
     retrying = disconnect in ("retry", "retry_midline", "retry_backlog", "retry_reset")
     if retrying:
         opts.append("--retry-tcp")
@@ -410,7 +414,11 @@ def check_radar(col, binpath, rng, tag, seg_kind, delay_kind, malformed, disconn
         lines2.append(("good", enc.line(enc.long_frame(17, 5, SENTINEL, enc.me_ident(4, 0, "ENDFEED"))), SENTINEL, "ENDFEED"))
         if disconnect == "retry_midline":
             # the connection drops in the middle of a line: what was received of it must not leak into the next connection
-            plan += [("wait_for", "first_checked"), ("send", b"*8D4840D6202C"), ("sleep", 0.3), ("close",), ("sleep", rng.choice([0.1, 0.5])), ("accept", 25.0)]
+            # (also in the middle of something far too long to be a line: whatever state the client
+            # keeps about it belongs to the connection that ended)
+            partial = rng.choice([b"*8D4840D6202C", b"*8D4840D6202C", b"x" * 70000, b"*" + b"8D" * 50000, b"\n" + b"y" * 66000, b"z" * 1024])
+            partial_desc = f"{len(partial)} bytes starting {partial[:16]!r}, no line end, then the connection drops"
+            plan += [("wait_for", "first_checked"), ("send", partial), ("sleep", 1.5 if len(partial) > 1000 else 0.3), ("close",), ("sleep", rng.choice([0.1, 0.5])), ("accept", 25.0)]
         elif disconnect == "retry_reset":
             # the server dies abortively (RST instead of FIN) and comes back
             plan += [("wait_for", "first_checked"), ("reset",), ("sleep", rng.choice([0.1, 0.5])), ("accept", 25.0)]
@@ -435,6 +443,8 @@ def check_radar(col, binpath, rng, tag, seg_kind, delay_kind, malformed, disconn
         plan += [("wait_for", "first_checked"), ("close",), ("sleep", 20)]
     cls = f"seg={seg_kind}|delay={delay_kind}|malformed={malformed}" + ("|limit_parsing" if limit else "")
     inp = {"client": "radar", "options": opts, "segmentation": seg_kind, "delay": delay_kind, "malformed": malformed, "disconnect": disconnect, "lines": [d.decode("latin1") for _, d, *_ in lines], "tag": tag}
+    if partial_desc:
+        inp["unfinished_line_before_the_drop"] = partial_desc
     sess = session.RadarSession(binpath, plan, opts=opts, rows=40, cols=130, scratch=scratch)
     try:
         sess.wait_connected()
